@@ -385,6 +385,14 @@ func Check(p *Prop, o Options) int {
 				viols = append(viols, Violation{Case: r.jCase,
 					Msg:    "the monitored process died during this call into poly (" + r.exitErr + "); log tail:\n" + r.logTail,
 					Replay: map[string]any{"journal_input": r.jInput}})
+			} else if strings.Contains(r.logTail, "github.com/TimothyStiles/poly/") && !r.memCap {
+				// the harness makes only in-scope calls; a fatal error (deadlock, unrecovered panic in a goroutine
+				// poly started, runtime throw) with poly frames on the stack is poly's doing even when the call was a
+				// helper call the harness did not journal
+				nviol++
+				viols = append(viols, Violation{Case: fmt.Sprintf("shard-%d-helper-call", i),
+					Msg:    "the monitored process died inside poly code during a call the harness does not journal (" + r.exitErr + "); log tail:\n" + r.logTail,
+					Replay: map[string]any{"log_tail": r.logTail}})
 			} else {
 				inconcl = append(inconcl, fmt.Sprintf("shard %d died outside a monitored call (%s): %s", i, r.exitErr, r.logTail))
 			}
